@@ -203,12 +203,33 @@ func cmdVariant(args []string) int {
 	target := fs.String("target", "", "")
 	content := fs.String("content", "", "")
 	onlyProp := fs.String("p", "", "run only this property")
+	overlayFile := fs.String("overlay", "", "json file {source path: file with replacement content} (several files at once)")
 	fs.Parse(args)
-	b, err := os.ReadFile(*content)
-	if err != nil {
-		return 2
+	ov := map[string][]byte{}
+	if *overlayFile != "" {
+		ob, err := os.ReadFile(*overlayFile)
+		if err != nil {
+			return 2
+		}
+		m := map[string]string{}
+		if json.Unmarshal(ob, &m) != nil {
+			return 2
+		}
+		for k, cf := range m {
+			b, err := os.ReadFile(cf)
+			if err != nil {
+				return 2
+			}
+			ov[k] = b
+		}
+	} else {
+		b, err := os.ReadFile(*content)
+		if err != nil {
+			return 2
+		}
+		ov[*target] = b
 	}
-	p, err := Load(LoadConfig{Repo: *repo, Tags: "verif", Overlay: map[string][]byte{*target: b}})
+	p, err := Load(LoadConfig{Repo: *repo, Tags: "verif", Overlay: ov})
 	if err != nil {
 		return 3
 	}
